@@ -173,46 +173,91 @@ def _prove(conds, goal, depth=0, level=1, timeout_ms=None, seeds=(0, 7, 23), gro
     else:
         wit_terms = list(wit_terms)
     if level >= 2 and depth == 0:
-        # deterministic, bounded stand-in for e-matching over ground terms of the path: sequence positions  Nth(_, t)  and dictionary
-        # keys  Contains(_, Unit(t)) / Select(_, t)  that occur in the quantifier-free hypotheses (and, in a second round, in the
-        # instances obtained from them) are used to instantiate the position- / key-quantified hypotheses
+        # deterministic, bounded stand-in for e-matching over ground terms of the path.  Terms are collected by the ROLE in which they
+        # occur — a sequence position  Nth(_, t),  an object reference  H_field[t] / the value of a field, list element or dictionary
+        # entry,  a key  Unit(t) / map[t]  — and a universal hypothesis is instantiated only at terms of the role in which it uses its
+        # bound variable.  Two rounds: the second one looks into the instances obtained in the first.
         uni = [c for c in conds if z3.is_quantifier(c) and c.is_forall() and c.num_vars() == 1]
+
+        def is_field(a):
+            return z3.is_const(a) and a.decl().name().startswith("H_")
+
+        def roles_of(c):
+            """roles in which the bound variable of the one-variable hypothesis c is used"""
+            mk = z3.Const("role!marker", c.var_sort(0))
+            body = z3.substitute_vars(c.body(), mk)
+            out = set()
+
+            def w(t, d=0):
+                if d > 40 or not z3.is_app(t):
+                    if z3.is_quantifier(t):
+                        w(t.body(), d + 1)
+                    return
+                k = t.decl().kind()
+                if k == z3.Z3_OP_SEQ_NTH and z3.eq(t.arg(1), mk):
+                    out.add("pos")
+                if k == z3.Z3_OP_SELECT and z3.eq(t.arg(1), mk):
+                    out.add("ref" if is_field(t.arg(0)) else "key")
+                if k == z3.Z3_OP_SEQ_UNIT and z3.eq(t.arg(0), mk):
+                    out.add("key")
+                if k in (z3.Z3_OP_LE, z3.Z3_OP_LT, z3.Z3_OP_GE, z3.Z3_OP_GT) and any(z3.eq(x, mk) for x in t.children()) and z3.is_int(mk) and not out:
+                    pass
+                for ch in t.children():
+                    w(ch, d + 1)
+            w(body)
+            if not out:
+                out.add("pos" if z3.is_int(mk) else "key")
+            return out
+        uni_roles = [(c, roles_of(c)) for c in uni]
         pool = [c for c in conds if not z3.is_quantifier(c)] + [goal]
-        seen_terms = {}
+        seen_terms = set()
         for _round in range(2):
             found = {}
+
+            def note(role, t):
+                if z3.is_int_value(t) or z3.is_string_value(t):
+                    return
+                key = (role, str(t))
+                if len(key[1]) < 400 and key not in seen_terms:
+                    found[key] = t
 
             def grab(t, d=0):
                 if d > 40 or not z3.is_app(t):
                     return
                 k = t.decl().kind()
-                cand = None
                 if k == z3.Z3_OP_SEQ_NTH and t.num_args() == 2:
-                    cand = t.arg(1)
-                elif k == z3.Z3_OP_SEQ_UNIT and t.num_args() == 1:
-                    cand = t.arg(0)
-                elif k == z3.Z3_OP_SELECT and t.num_args() == 2 and (not z3.is_int(t.arg(1)) or (
-                        z3.is_app(t.arg(1)) and t.arg(1).decl().kind() in (z3.Z3_OP_SEQ_NTH, z3.Z3_OP_SELECT))):
-                    cand = t.arg(1)        # a key, or a reference-valued term (an element of a list / an entry of a dictionary)
-                cands_here = [cand] if cand is not None else []
-                if k == z3.Z3_OP_SELECT and t.num_args() == 2 and z3.is_int(t) and not z3.is_int(t.arg(1)):
-                    cands_here.append(t)        # the entry of a dictionary: an object reference
-                for cand in cands_here:
-                    if not z3.is_int_value(cand) and not z3.is_string_value(cand) and len(str(cand)) < 400:
-                        key = str(cand)
-                        if key not in seen_terms and len(found) < 8:
-                            found[key] = cand
+                    note("pos", t.arg(1))
+                    if z3.is_int(t):
+                        note("ref", t)            # an element of a list of objects
+                elif k == z3.Z3_OP_SEQ_UNIT and t.num_args() == 1 and not z3.is_int(t.arg(0)):
+                    note("key", t.arg(0))
+                elif k == z3.Z3_OP_SELECT and t.num_args() == 2:
+                    if is_field(t.arg(0)) and z3.is_int(t.arg(1)):
+                        note("ref", t.arg(1))
+                        if z3.is_int(t):
+                            note("ref", t)        # a reference-valued field (x.parent, ...)
+                    elif not z3.is_int(t.arg(1)):
+                        note("key", t.arg(1))
+                        if z3.is_int(t):
+                            note("ref", t)        # the entry of a dictionary
                 for ch in t.children():
                     grab(ch, d + 1)
             for x in pool:
                 grab(x)
-            if not found:
+            # the smallest terms first (they are the ones the code itself computes), at most 10 per role and round
+            chosen = {}
+            for role in ("pos", "ref", "key"):
+                items = sorted(((k, v) for k, v in found.items() if k[0] == role), key=lambda kv: len(kv[0][1]))[:10]
+                chosen.update(items)
+            if os.environ.get("PYVC_DEBUG_TERMS"):
+                print("   level-2 round", _round, [(k[0], k[1][:60].replace("\n", " ")) for k in chosen])
+            if not chosen:
                 break
-            seen_terms.update(found)
+            seen_terms.update(chosen)
             new = []
-            for tm in found.values():
-                for c in uni:
-                    if c.var_sort(0) == tm.sort():
+            for (role, _), tm in chosen.items():
+                for c, roles in uni_roles:
+                    if c.var_sort(0) == tm.sort() and role in roles:
                         new.append(z3.substitute_vars(c.body(), tm))
             extra.extend(new)
             pool = new
